@@ -673,15 +673,15 @@ def truth_z(c):
 # ------------------------------------------------------------------------------------------------
 # transcendental / algebraic functions as uninterpreted symbols with instantiated axioms
 # ------------------------------------------------------------------------------------------------
-F_sqrt = z3.Function("sqrt", R, R)
-F_exp = z3.Function("exp", R, R)
-F_log10 = z3.Function("log10", R, R)
-F_pow = z3.Function("pow", R, R, R)
-F_sin = z3.Function("sin", R, R)
-F_cos = z3.Function("cos", R, R)
-F_arctan2 = z3.Function("arctan2", R, R, R)
-F_arcsin = z3.Function("arcsin", R, R)
-F_arccos = z3.Function("arccos", R, R)
+F_sqrt = z3.Function("u_sqrt", R, R)
+F_exp = z3.Function("u_exp", R, R)
+F_log10 = z3.Function("u_log10", R, R)
+F_pow = z3.Function("u_pow", R, R, R)
+F_sin = z3.Function("u_sin", R, R)
+F_cos = z3.Function("u_cos", R, R)
+F_arctan2 = z3.Function("u_arctan2", R, R, R)
+F_arcsin = z3.Function("u_arcsin", R, R)
+F_arccos = z3.Function("u_arccos", R, R)
 C_pi = z3.Real("pi")
 
 
